@@ -32,6 +32,7 @@ type c16Info struct {
 	mtime    int64
 	uid, gid uint32
 	ext      string // extended attribute data ("" = none): entries that carry one are followed by further entries in a batch
+	sysToo   bool   // Sys() is a *syscall.Stat_t naming another owner (a lister serving the local disk under remapped owners): Uid()/Gid() are what the lister reports
 }
 
 func (i c16Info) Extended() []StatExtended {
@@ -45,9 +46,14 @@ func (i c16Info) Size() int64        { return i.size }
 func (i c16Info) Mode() os.FileMode  { return i.mode }
 func (i c16Info) ModTime() time.Time { return time.Unix(i.mtime, 0) }
 func (i c16Info) IsDir() bool        { return i.mode.IsDir() }
-func (i c16Info) Sys() any           { return nil }
-func (i c16Info) Uid() uint32        { return i.uid }
-func (i c16Info) Gid() uint32        { return i.gid }
+func (i c16Info) Sys() any {
+	if i.sysToo {
+		return &syscall.Stat_t{Uid: 70000 + i.uid, Gid: 80000 + i.gid}
+	}
+	return nil
+}
+func (i c16Info) Uid() uint32 { return i.uid }
+func (i c16Info) Gid() uint32 { return i.gid }
 
 func (i c16Info) tuple() string {
 	return fmt.Sprintf("%q size=%d mode=%v mtime=%d uid=%d gid=%d ext=%q", i.name, i.size, i.mode, i.mtime, i.uid, i.gid, i.ext)
@@ -77,6 +83,7 @@ func c16Entry(i int) c16Info {
 	if i%4 == 2 {
 		e.ext = fmt.Sprintf("data of entry %d", i)
 	}
+	e.sysToo = i%3 == 0
 	switch i % 5 {
 	case 1:
 		e.mode = os.ModeDir | 0o755
